@@ -156,7 +156,7 @@ theorem topP_get (p : K) (X : Vec (Option K)) (j : Nat) : (topPStage n w p σ X)
 theorem stages_pre :
     applyStage w clip c n mask kth σ .temp (applyStage w clip c n mask kth σ .mask
       (applyStage w clip c n mask kth σ .clip (Vec.tab n (fun j => some (x j))))) = pre clip c n x mask := by
-  simp only [applyStage, pre, Vec.tab_eq]
+  simp only [applyStage, stClip, stClipAlways, stMask, stTemp, pre, Vec.tab_eq]
   by_cases hc : c.clipOn = true
   · simp only [hc, if_true]
     congr 1
